@@ -78,10 +78,46 @@ def load_modules():
     return mods
 
 
-def apply(tree, modules):
-    """inject all modules into the snapshot; returns {module name: error string} for lost anchors"""
+def expand_module(tree, m, extra_text=""):
+    """write the module text with `/*@@FRAGMENT:<id>*/` markers replaced by the CURRENT source text of
+    the fragment (directive `//@ fragment: <id> :: <file> :: <item path> :: `start` .. `end``) into
+    .work/kani-modules/<name>.rs and return that path.  The harness therefore follows /repo when the
+    fragment's text changes, or loses its anchor."""
+    from . import extract
+    from .tree import WORK
+    text = m.text
+    for line in m.text.splitlines():
+        if not line.startswith("//@ fragment:"):
+            continue
+        fid, f, path, rng = [x.strip() for x in line[len("//@ fragment:"):].split("::", 3)]
+        mm = re.match(r"`(.*?)`\s*\.\.\s*`(.*)`\s*$", rng, re.S)
+        if not mm:
+            raise rsrc.LostAnchor("bad fragment directive: " + line)
+        src = open(os.path.join(tree, f)).read()
+        it = rsrc.find_item(src, path)
+        body = it.body
+        a = list(re.finditer(extract._tok_regex(mm.group(1)), body))
+        if len(a) != 1:
+            raise rsrc.LostAnchor("fragment %s start matched %d times" % (fid, len(a)))
+        b = [x for x in re.finditer(extract._tok_regex(mm.group(2)), body) if x.end() >= a[0].end() or mm.group(1) == mm.group(2)]
+        if not b:
+            raise rsrc.LostAnchor("fragment %s end not found" % fid)
+        frag = body[a[0].start():b[0].end()]
+        text = text.replace("/*@@FRAGMENT:%s*/" % fid, frag)
+    d = os.path.join(WORK, "kani-modules", os.path.basename(tree))
+    os.makedirs(d, exist_ok=True)
+    out = os.path.join(d, m.name + ".rs")
+    with open(out, "w") as fh:
+        fh.write(text + "\n" + extra_text)
+    return out
+
+
+def apply(tree, modules, extra=None):
+    """inject all modules into the snapshot; returns {module name: error string} for lost anchors.
+    `extra` = {module name: text appended to the module} (concrete playback tests)"""
     lost = {}
     by_file = {}
+    extra = extra or {}
     for m in modules:
         try:
             for f, p in m.anchors:
@@ -100,7 +136,12 @@ def apply(tree, modules):
                 lost[m.name] = "lost anchor: %s" % e
             continue
         for m in mods:
-            decl = '#[cfg(kani)] #[path = "%s"] pub(crate) mod verif_%s;\n' % (m.path, m.name)
+            try:
+                mpath = expand_module(tree, m, extra.get(m.name, ""))
+            except (rsrc.LostAnchor, OSError) as e:
+                lost[m.name] = "lost anchor: %s" % e
+                continue
+            decl = '#[cfg(kani)] #[path = "%s"] pub(crate) mod verif_%s;\n' % (mpath, m.name)
             try:
                 # attributes first (positions found freshly each time)
                 for af, ap, atext in m.attrs:
